@@ -47,19 +47,44 @@ theorem findAndDelete_invalid (s sig : Bytes) (h : ¬ parses s) :
 theorem raw_eq_spec (sc : Bytes) (tx : Tx) (i ht : Nat) (hp : parses sc) (hsc : sc.length < 2 ^ 64)
     (hwf : FieldsWF tx) (hht : ht < 256) :
     rawSignatureHash sc tx i (ht : Int) = .ok (legacySighash sc tx i ht) :=
-  raw_eq sc tx i ht hp hsc hwf (by omega)
+  raw_eq sc tx i ht hp hsc hwf (htRel_cast ht) (packI_ht (by omega))
 
 /-- the same for every hash type in `[0, 2^31)` (the masks select the mode, all four bytes are hashed) -/
 theorem raw_eq_spec_int32 (sc : Bytes) (tx : Tx) (i ht : Nat) (hp : parses sc) (hsc : sc.length < 2 ^ 64)
     (hwf : FieldsWF tx) (hht : ht < 2 ^ 31) :
     rawSignatureHash sc tx i (ht : Int) = .ok (legacySighash sc tx i ht) :=
-  raw_eq sc tx i ht hp hsc hwf hht
+  raw_eq sc tx i ht hp hsc hwf (htRel_cast ht) (packI_ht hht)
 
 /-- the same under the wire-format well-formedness predicate of C01, for every `i ≤ |vin|` -/
 theorem raw_eq_spec_wf (sc : Bytes) (tx : Tx) (i ht : Nat) (hp : parses sc)
     (hsc : sc.length ≤ Spec.Wire.maxSize) (hwf : Spec.Wire.WFTx tx) (_hi : i ≤ tx.vin.length) (hht : ht < 256) :
     rawSignatureHash sc tx i (ht : Int) = .ok (legacySighash sc tx i ht) :=
-  raw_eq sc tx i ht hp (by unfold Spec.Wire.maxSize at hsc; omega) (fieldsWF_of_WFTx hwf) (by omega)
+  raw_eq sc tx i ht hp (by unfold Spec.Wire.maxSize at hsc; omega) (fieldsWF_of_WFTx hwf) (htRel_cast ht)
+    (packI_ht (by omega))
+
+/-- Python ints as hash type, negative ones included: for every `h` in the int32 range the result is
+    the consensus digest for the two's-complement reading `h mod 2^32` (what Core's `int nHashType`
+    holds): the masks `h & 0x1f`, `h & 0x80` select the mode and all four bytes are hashed. -/
+theorem raw_eq_spec_int (sc : Bytes) (tx : Tx) (i : Nat) (h : Int) (hp : parses sc) (hsc : sc.length < 2 ^ 64)
+    (hwf : FieldsWF tx) (h1 : -(2 ^ 31 : Int) ≤ h) (h2 : h < 2 ^ 31) :
+    rawSignatureHash sc tx i h = .ok (legacySighash sc tx i (h % 4294967296).toNat) :=
+  raw_eq sc tx i _ hp hsc hwf (htRel_int32 h) (packI_int32 h1 h2)
+
+/-- Outside the int32 range the two "constant one" cases are still answered (they return before the
+    hash type is packed); every other call raises struct.error from `struct.pack('<i', hashtype)`. -/
+theorem raw_hashtype_range (sc : Bytes) (tx : Tx) (i : Nat) (h : Int) (hp : parses sc) (hsc : sc.length < 2 ^ 64)
+    (hwf : FieldsWF tx) (hh : h < -(2 ^ 31 : Int) ∨ (2 ^ 31 : Int) ≤ h) :
+    rawSignatureHash sc tx i h =
+      if i ≥ tx.vin.length ∨ (h % 32 = 3 ∧ i ≥ tx.vout.length) then .ok (1 :: List.replicate 31 0, true)
+      else .error structError := by
+  rw [raw_eq_gen sc tx i _ hp hsc hwf (htRel_int32 h), packI_out_of_range hh]
+  have hs : isSingle (h % 4294967296).toNat = true ↔ h % 32 = 3 := (ht_single_iff (htRel_int32 h)).symm
+  by_cases hi : i ≥ tx.vin.length
+  · rw [if_pos hi, if_pos (Or.inl hi)]; rfl
+  · rw [if_neg hi]
+    by_cases h3 : h % 32 = 3 ∧ i ≥ tx.vout.length
+    · rw [if_pos ⟨hs.mpr h3.1, h3.2⟩, if_pos (Or.inr h3)]; rfl
+    · rw [if_neg (fun hc => h3 ⟨hs.mp hc.1, hc.2⟩), if_neg (fun hc => hc.elim hi h3)]; rfl
 
 /-- The error indication is raised exactly when the input index does not exist or SIGHASH_SINGLE
     has no matching output, and then the digest is the historical constant 1. -/
@@ -98,24 +123,21 @@ theorem raw_no_pyexc (sc : Bytes) (tx : Tx) (i ht : Nat) (hp : parses sc) (hsc :
 theorem isWitnessScriptPubKey_spec (s : Bytes) : isWitnessScriptPubKey s = .ok (isWitnessProgram s) :=
   isWitnessScriptPubKey_eq s
 
-/-- The convenience form: AssertionError on a witness program; otherwise the consensus digest when
-    there is no error indication and ValueError when there is one. -/
+/-- The convenience form (property-conforming model, see D17 below): the consensus digest when there
+    is no error indication and ValueError when there is one — for EVERY subscript that parses. -/
 theorem wrapper_eq_spec (sc : Bytes) (tx : Tx) (i ht : Nat) (hp : parses sc) (hsc : sc.length < 2 ^ 64)
     (hwf : FieldsWF tx) (hht : ht < 256) :
     signatureHashBase sc tx i (ht : Int) =
-      if isWitnessProgram sc then .error assertionError
-      else if (legacySighash sc tx i ht).2 then .error .valueerr
+      if (legacySighash sc tx i ht).2 then .error .valueerr
       else .ok (legacySighash sc tx i ht).1 := by
   unfold signatureHashBase
-  rw [isWitnessScriptPubKey_eq, raw_eq_spec sc tx i ht hp hsc hwf hht]
-  cases isWitnessProgram sc
-  · cases h : (legacySighash sc tx i ht).2 <;> simp [bind_ok, h] <;> rfl
-  · rfl
+  rw [raw_eq_spec sc tx i ht hp hsc hwf hht]
+  cases h : (legacySighash sc tx i ht).2 <;> simp [bind_ok, h] <;> rfl
 
 /-- The convenience form raises ValueError exactly when the raw form reports an error (index does
-    not exist / SINGLE without matching output), for subscripts that are not witness programs. -/
+    not exist / SINGLE without matching output). -/
 theorem wrapper_raises_iff (sc : Bytes) (tx : Tx) (i ht : Nat) (hp : parses sc) (hsc : sc.length < 2 ^ 64)
-    (hwf : FieldsWF tx) (hht : ht < 256) (hw : isWitnessProgram sc = false) :
+    (hwf : FieldsWF tx) (hht : ht < 256) :
     signatureHashBase sc tx i (ht : Int) = .error .valueerr ↔
       (i ≥ tx.vin.length ∨ (ht % 32 = 3 ∧ i ≥ tx.vout.length)) := by
   obtain ⟨d, e, hraw, hiff, _⟩ := err_iff sc tx i ht hp hsc hwf hht
@@ -124,8 +146,61 @@ theorem wrapper_raises_iff (sc : Bytes) (tx : Tx) (i ht : Nat) (hp : parses sc) 
   have he : (legacySighash sc tx i ht).2 = e := by
     have := congrArg (fun r => match r with | Except.ok p => p.2 | Except.error _ => false) hspec
     simpa using this.symm
-  rw [wrapper_eq_spec sc tx i ht hp hsc hwf hht, hw, he, ← hiff]
+  rw [wrapper_eq_spec sc tx i ht hp hsc hwf hht, he, ← hiff]
   cases e <;> simp
+
+/-- **Known finding D17** — what the shipped wrapper does instead: `assert not
+    script.is_witness_scriptpubkey()` comes first, so for every subscript that has the shape of a
+    witness program (all of which parse, hence lie inside the property's quantifier) the call raises
+    AssertionError whatever the transaction, index and hash type — neither the digest nor ValueError. -/
+theorem wrapper_witness_program_asserts (sc : Bytes) (tx : Tx) (i : Nat) (h : Int)
+    (hw : isWitnessProgram sc = true) :
+    signatureHashBaseAsCoded sc tx i h = .error assertionError := by
+  unfold signatureHashBaseAsCoded
+  rw [isWitnessScriptPubKey_eq, hw]; rfl
+
+/-- on every other subscript the shipped wrapper is the property-conforming one -/
+theorem wrapper_as_coded_eq (sc : Bytes) (tx : Tx) (i : Nat) (h : Int) (hw : isWitnessProgram sc = false) :
+    signatureHashBaseAsCoded sc tx i h = signatureHashBase sc tx i h := by
+  unfold signatureHashBaseAsCoded
+  rw [isWitnessScriptPubKey_eq, hw]; rfl
+
+/-- a witness program always parses (a version opcode and one complete direct push) -/
+theorem witness_program_parses (sc : Bytes) (hw : isWitnessProgram sc = true) : parses sc := by
+  unfold isWitnessProgram at hw
+  rcases sc with _ | ⟨v, _ | ⟨l, rest⟩⟩
+  · simp at hw
+  · simp at hw
+  · simp only [List.length_cons, decide_eq_true_eq] at hw
+    obtain ⟨hv, h4, h42, hl⟩ := hw
+    have hvn : ¬ v.toNat ≤ 0x4e ∨ v.toNat = 0 := by omega
+    have hl1 : l.toNat < 0x4c := by omega
+    have hrest : rest.length = l.toNat := by omega
+    have hpush : getOp (l :: rest) = some (l, 1 + 0 + l.toNat) := by
+      simp only [getOp]
+      rw [if_pos (by omega), if_pos hl1]
+      simp only
+      rw [if_neg (by omega)]
+    have hdrop : (l :: rest).drop (1 + 0 + l.toNat) = [] := by
+      apply List.drop_eq_nil_of_le; simp only [List.length_cons]; omega
+    have hops_push : ops (l :: rest) = some [l :: rest] := by
+      rw [ops_eq, hpush]
+      simp only [hdrop]
+      rw [ops_eq]
+      simp only [getOp_nil, if_true, Option.map_some]
+      congr 2
+      apply List.take_of_length_le; simp only [List.length_cons]; omega
+    have hv1 : getOp (v :: l :: rest) = some (v, 1) := by
+      simp only [getOp]
+      rcases hvn with hbig | hz
+      · rw [if_neg hbig]
+      · rw [if_pos (by omega), if_pos (by omega)]
+        simp only
+        rw [if_neg (by simp [hz])]
+        simp [hz]
+    unfold parses
+    rw [ops_eq, hv1]
+    simp only [List.drop_succ_cons, List.drop_zero, hops_push, Option.map_some, Option.isSome_some]
 
 /-! ### non-vacuity -/
 
